@@ -98,6 +98,23 @@ class C04(Check):
             for p in s['params']:
                 if p.get('write') and rng.random() < 0.25:
                     scripts[f'{s["name"]}.write_{p["name"]}'] = [[0, 'ok'], [0, rng.choice(['none', 'secop', 'exc', 'ok'])]]
+        structs = [(s, p) for s in specs for p in s['params']
+                   if p['di']['type'] == 'struct' and p.get('write') and not p.get('readonly') and p.get('constant') is None
+                   and p.get('export', True) is not False and len(p['di']['members']) > 1]
+        if nclients > 1 and structs and rng.random() < 0.6:
+            # several clients change different members of one struct parameter at the same time, the hardware is slow:
+            # every partial value must be merged into the value current when the driver is called
+            s, p = rng.choice(structs)
+            scripts[f'{s["name"]}.write_{p["name"]}'] = [[rng.choice([0.01, 0.05, 0.2]), 'ok']]
+            members = list(p['di']['members'])
+            for op in ops:
+                if rng.random() < 0.6:
+                    full = dtgen.valid_wire(rng, p['di'], full=True)
+                    keep = rng.sample(members, rng.randrange(1, len(members)))
+                    op.update(kind='change', m=s['name'], name=self._name(rng, s, p['name'], p.get('export', True)),
+                              payload={k: full[k] for k in keep})
+                    op.pop('nodata', None)
+                    op.pop('limit', None)
         shape = {'p_switch': rng.choice([0.1, 0.3]), 'line_gaps': rng.choice([0, 0, 0, 12]),
                  'seg_bias': rng.choice([1.0, 0.7]), 'lat_bias': rng.choice([1.0, 0.7]),
                  'specs': specs, 'scripts': scripts, 'nclients': nclients, 'poll': poll}
